@@ -17,11 +17,11 @@ PLAIN_TYPES = ["u8", "i32", "bool", "String", "opt"]
 
 def rand_fields(rng, kind, n, generics):
     tys = list(PLAIN_TYPES)
-    if generics in ("ty", "tywhere", "tyconst"):
+    if generics in ("ty", "tywhere", "tyconst", "tydef"):
         tys += ["T", "T"]
     if generics == "lt":
         tys += ["str", "str"]
-    if generics in ("const", "tyconst"):
+    if generics in ("const", "tyconst", "constdef"):
         tys += ["arr"]
     fs = []
     names = rng.sample(FIELD_NAMES, n)
@@ -33,7 +33,7 @@ def rand_fields(rng, kind, n, generics):
 def ensure_generic_use(rng, E):
     """every declared generic parameter must be used by some field, otherwise rustc rejects the enum itself"""
     g = E["generics"]
-    need = {"ty": ["T"], "tywhere": ["T"], "lt": ["str"], "const": ["arr"], "tyconst": ["T", "arr"], "none": []}[g]
+    need = {"ty": ["T"], "tywhere": ["T"], "lt": ["str"], "const": ["arr"], "tyconst": ["T", "arr"], "none": [], "tydef": ["T"], "constdef": ["arr"]}[g]
     have = {f["ty"] for v in E["variants"] for f in v["fields"]}
     for t in need:
         if t not in have:
@@ -82,7 +82,7 @@ def default_variant(rng, ident, named=None):
 def sample_def(rng, did, nmax=8, perr=None, phf=False, fieldless=False, default_ok=True, styles=None):
     n = rng.choice([0, 1, 2, 2, 3, 3, 4, 5, 6, 8][: max(1, nmax + 2)])
     n = min(n, nmax)
-    generics = "none" if fieldless else rng.choice(["none", "none", "none", "ty", "tywhere", "lt", "const", "tyconst"])
+    generics = "none" if fieldless else rng.choice(["none", "none", "none", "ty", "tywhere", "lt", "const", "tyconst", "tydef", "constdef"])
     idents = rng.sample(IDENTS, n)
     lits = rng.sample(LITS, min(len(LITS), 4 + 3 * n))
     vs = []
@@ -310,7 +310,7 @@ PREFIXES = [None, None, None, "", "pre_", "P", "é-", "ns::", " "]
 
 def names_def(rng, did, allow_prefix=True, styles=None, fieldless=False, nmax=6):
     n = rng.choice([1, 2, 3, 3, 4, 5, 6][:nmax + 1])
-    generics = "none" if fieldless else rng.choice(["none", "none", "none", "ty", "const", "tywhere"])
+    generics = "none" if fieldless else rng.choice(["none", "none", "none", "ty", "const", "tywhere", "tydef", "constdef"])
     idents = rng.sample(IDENTS, n)
     vs = []
     for ident in idents:
